@@ -216,7 +216,7 @@ let gen_mode seed tier out =
   st := Int64.of_string seed;
   ignore (next ());
   let oc = open_out out in
-  let per = if tier = "thorough" then 16 else 10 in
+  let per = if tier = "thorough" then 16 else 8 in
   let extras = ref false in
   List.iter (fun (name, ss) ->
       (* the stand-alone variant members share their wire shapes with the variant types: fewer seeds *)
@@ -384,7 +384,7 @@ let run_mode () = run_driver (fun toks impl ->
                (match List.assoc_opt name table with Some ss -> Some (ss, false) | None -> None)) with
         | Some (ss, deep_ok) when not (List.mem name lax_exceptions) ->
           if List.exists (fun s -> accepts s bs) ss then p
-          else if deep_ok || int_of_nat (input_depth bs) <= 8 then "err"
+          else if deep_ok || shallow (nat_of_int 8) bs then "err"
           else if not (first_item_wf bs) then "err" else p
         | _ -> if not (first_item_wf bs) then "err" else p
       end in
